@@ -90,8 +90,8 @@ CountC(c, n, rd) == IF IsArr(n) THEN Count(c, n.v, rd) ELSE 0
 CanonSeq(s, rd) == {Canon(s[i], rd) : i \in DOMAIN s}
 
 (* the hunk says something: it is not empty and what it removes differs from what it adds *)
-NotNoop(h) ==
-  IF h.merge THEN Len(h.add) = 1
+NotNoop(h, docBefore, o) ==
+  IF h.merge THEN Len(h.add) <= 1 /\ ~EqR(GetX(docBefore, h.path), Single(h.add), Reading(o))
   ELSE IF IsSetHunk(h) THEN
          /\ NonVoid(h.remove) # <<>> \/ NonVoid(h.add) # <<>>
          /\ CanonSeq(h.remove, "set") \cap CanonSeq(h.add, "set") = {}
@@ -125,7 +125,7 @@ AddsInB(h, b, docBefore, o) ==
 MentionsOnlyDifferences(a, b, o, d) ==
   LET docs == ApplyTrace(a, d) IN
   IF Len(docs) # Len(d) + 1 \/ Bad(docs[Len(docs)]) THEN FALSE
-  ELSE \A i \in DOMAIN d : NotNoop(d[i]) /\ AddsInB(d[i], b, docs[i], o)
+  ELSE \A i \in DOMAIN d : NotNoop(d[i], docs[i], o) /\ AddsInB(d[i], b, docs[i], o)
 
 (* C07: no hunk is redundant *)
 Without(d, k) == SubSeq(d, 1, k - 1) \o SubSeq(d, k + 1, Len(d))
